@@ -266,7 +266,8 @@ def render(cfg: dict, layer: Layer, view: View, parent_entries: list[tuple[str, 
     # -- BAT + payload -----------------------------------------------------------------------------------
     need = []
     states = {}
-    for u in range(nblocks):
+    default_state = ST_FULL if cfg["fixed"] else (ST_NOT_PRESENT if diff else cfg["unalloc_state"])
+    for u in (range(nblocks) if cfg["fixed"] else sorted(set(layer.touch) | set(layer.flags))):
         a, b = layer.urange(u)
         st = layer.ustate(u)
         if cfg["fixed"]:
@@ -280,7 +281,8 @@ def render(cfg: dict, layer: Layer, view: View, parent_entries: list[tuple[str, 
         else:
             states[u] = ST_FULL
     touched = [u for u in layer.touch if states.get(u) in (ST_FULL, ST_PARTIAL)]
-    rest = [u for u in range(nblocks) if states[u] in (ST_FULL, ST_PARTIAL) and u not in set(touched)] if cfg["fixed"] else []
+    tset = set(touched)
+    rest = [u for u in range(nblocks) if u not in tset] if cfg["fixed"] else []
     need = touched + rest
     chunks_with_partial = sorted({u // ratio for u in need if states[u] == ST_PARTIAL})
     # sector bitmap blocks take slots too (interleaved with payload blocks in the data area)
@@ -302,9 +304,10 @@ def render(cfg: dict, layer: Layer, view: View, parent_entries: list[tuple[str, 
         kind, idx = slot_items[i]
         posn[(kind, idx)] = cur
         cur += bs if kind == "pb" else MB
-    bat = [0] * nbat
     stale = (data_base // MB) if cfg["stale_offsets"] and need else 0
-    for u in range(nblocks):
+    dflt = default_state | ((stale << 20) if (default_state in (ST_UNDEFINED, ST_UNMAPPED) and stale) else 0)
+    bat = [dflt] * nbat
+    for u in states:
         e = u + u // ratio
         st = states[u]
         if st in (ST_FULL, ST_PARTIAL):
@@ -344,13 +347,13 @@ def render(cfg: dict, layer: Layer, view: View, parent_entries: list[tuple[str, 
         bm = bytearray(MB)
         for u in range(c * ratio, min((c + 1) * ratio, nblocks)):
             a, b = layer.urange(u)
-            if states[u] == ST_PARTIAL:
+            if states.get(u, default_state) == ST_PARTIAL:
                 for sa, sb_, v in layer.own.segs(a, b):
                     if v is not None:
                         assert sa % sec == 0 and sb_ % sec == 0, "differencing writes must be sector aligned"
                         for s in range((sa - c * ratio * spb512) // sec, (sb_ - c * ratio * spb512) // sec):
                             bm[s >> 3] |= 1 << (s & 7)
-            elif states[u] == ST_FULL:
+            elif states.get(u, default_state) == ST_FULL:
                 # bits for fully present blocks are 1 by convention (readers must not consult them)
                 s0 = (a - c * ratio * spb512) // sec
                 s1 = (a + spb512 - c * ratio * spb512) // sec
@@ -364,5 +367,6 @@ def render(cfg: dict, layer: Layer, view: View, parent_entries: list[tuple[str, 
                 "sequence_number": base_seq + 1, "parent_entries": dict(parent_entries) if diff else None,
                 "pss": cfg["pss"]}
     img.meta_bytes = 320 * 1024 + 4096 + 8 * nbat
-    img.info = {"bat": bat, "unit_bytes": bs, "states": states, "ratio": ratio, "nbat": nbat, "bat_off": bat_off}
+    img.info = {"bat": bat, "unit_bytes": bs, "states": states, "ratio": ratio, "nbat": nbat, "bat_off": bat_off,
+                "default_state": default_state}
     return img
